@@ -15,7 +15,7 @@ LEVEL = 'exploration'
 JOBS = {'quick': 1, 'thorough': 16}
 REQUIRED_MONITORS = ('min_image_reference', 'symmetry', 'lattice_shift', 'inverse_flag', 'history_independence')
 REQUIRED_CLASSES = ('box:cubic', 'box:anisotropic', 'box:triclinic', 'arg:residue', 'arg:point',
-                    'placement:across-face', 'placement:far-outside', 'placement:lattice-points', 'wrapped:yes', 'wrapped:no',
+                    'placement:across-face', 'placement:far-outside', 'placement:lattice-points', 'box:triclinic-upper-only', 'box:triclinic-full', 'wrapped:yes', 'wrapped:no',
                     'session:same', 'session:rescale-in-place', 'session:new-values-in-place', 'session:other-object')
 RULE = ('pairs (residue, residue-or-point) x box; classes: box kind (cubic / anisotropic rectangular / triclinic with '
         'skew <= 0.4 L), placement (inside, across a face, on a face, many boxes away). Non-trivial: the minimum '
@@ -112,6 +112,9 @@ BOXES = ['cubic', 'anisotropic', 'triclinic']
 PLACES = ['inside', 'across-face', 'on-face', 'far-outside', 'same-point', 'lattice-points']
 
 
+_shape = []
+
+
 def gen_box(rng, cls):
     if cls == 'cubic':
         return np.eye(3) * rng.uniform(0.5, 20)
@@ -120,9 +123,18 @@ def gen_box(rng, cls):
         return np.diag(L)
     L = rng.uniform(0.5, 20, size=3)
     box = np.diag(L)
-    box[1, 0] = rng.uniform(-0.4, 0.4) * L[0]
-    box[2, 0] = rng.uniform(-0.4, 0.4) * L[0]
-    box[2, 1] = rng.uniform(-0.4, 0.4) * L[1]
+    shape = int(rng.integers(0, 4))
+    if shape in (0, 1, 3):
+        # the GROMACS shape: skew below the diagonal
+        box[1, 0] = rng.uniform(-0.4, 0.4) * L[0]
+        box[2, 0] = rng.uniform(-0.4, 0.4) * L[0]
+        box[2, 1] = rng.uniform(-0.4, 0.4) * L[1]
+    if shape in (2, 3):
+        # skew above the diagonal (the transposed convention), alone or together with the lower terms
+        box[0, 1] = rng.uniform(-0.3, 0.3) * L[1]
+        box[0, 2] = rng.uniform(-0.3, 0.3) * L[2]
+        box[1, 2] = rng.uniform(-0.3, 0.3) * L[2]
+        _shape.append('upper-only' if shape == 2 else 'full')
     return box
 
 
@@ -252,6 +264,8 @@ def run_case(ctx, case):
         d = res_a.distance_to(other, box_vects=box)
         ctx.count('evaluations')
         ctx.hit('box:' + bcls)
+        while _shape:
+            ctx.hit('box:triclinic-' + _shape.pop())
         ctx.hit('arg:' + ('residue' if as_res else 'point'))
         ctx.hit('placement:' + pcls)
         wrapped = int(np.sum(np.round(frac) != 0))
